@@ -187,6 +187,7 @@ var c16Srv struct {
 	rate  string
 	calls int
 	paths []string
+	byAddr map[string][]mempool.Utxo // when set: the listing of each address (op multi); other addresses hold nothing
 }
 
 func c16Serve(us []mempool.Utxo, rate string) *mempool.MempoolAPI {
@@ -205,11 +206,16 @@ func c16Serve(us []mempool.Utxo, rate string) *mempool.MempoolAPI {
 				return
 			}
 			c16Srv.paths = append(c16Srv.paths, r.URL.Path)
+			if c16Srv.byAddr != nil {
+				addr := strings.TrimSuffix(strings.TrimPrefix(r.URL.Path, "/api/address/"), "/utxo")
+				w.Write([]byte(c16UtxoJSON(c16Srv.byAddr[addr])))
+				return
+			}
 			w.Write([]byte(c16UtxoJSON(c16Srv.us)))
 		}))
 	})
 	c16Srv.mu.Lock()
-	c16Srv.us, c16Srv.rate, c16Srv.calls, c16Srv.paths = us, rate, 0, nil
+	c16Srv.us, c16Srv.rate, c16Srv.calls, c16Srv.paths, c16Srv.byAddr = us, rate, 0, nil, nil
 	c16Srv.mu.Unlock()
 	return mempool.NewMempoolAPI(c16Srv.srv.URL)
 }
@@ -488,6 +494,42 @@ func init() {
 		}
 		return c16ShowTx(tx, used) + c16Uploaded(up, ps)
 	}
+	// multi <rate> <cid> <steps>    steps = tok:script^props^listing ! …
+	// ONE MempoolAPI client and ONE executor serve a sequence of withdrawals for several resources (bridge addresses): before
+	// each step the service's listing for that step's address is replaced, the listings of the other addresses stay as
+	// they are; the service answers each address with its own listing.  =>  per step (joined by !): err | in=…|out=… (| -> /)
+	ops["C16.multi"] = func(a []string) string {
+		api := c16Serve(nil, a[0])
+		c16Srv.mu.Lock()
+		c16Srv.byAddr = map[string][]mempool.Utxo{}
+		c16Srv.mu.Unlock()
+		up := &c16Uploader{cid: string(unhx(a[1]))}
+		e := c16Exec(api, up)
+		out := []string{}
+		for _, st := range strings.Split(a[2], "!") {
+			f := strings.SplitN(st, "^", 3)
+			res := config.Resource{Address: c16Bridge(strings.Split(f[0], ":")[0]), ResourceID: [32]byte{9}, FeeAmount: big.NewInt(0)}
+			c16Srv.mu.Lock()
+			c16Srv.byAddr[res.Address.String()] = c16Utxos(f[2])
+			c16Srv.calls, c16Srv.paths = 0, nil
+			c16Srv.mu.Unlock()
+			ps := c16Props(f[1])
+			tx, used, err := e.VerifC16RawTx(ps, res)
+			if err != nil {
+				out = append(out, "err")
+				continue
+			}
+			c16Srv.mu.Lock()
+			paths := append([]string{}, c16Srv.paths...)
+			c16Srv.mu.Unlock()
+			r := strings.ReplaceAll(c16ShowTx(tx, used)+c16Uploaded(up, ps), "|", "/")
+			if len(paths) > 1 || (len(paths) == 1 && paths[0] != "/api/address/"+res.Address.String()+"/utxo") {
+				r += "/not-the-bridge-address"
+			}
+			out = append(out, r)
+		}
+		return strings.Join(out, "!")
+	}
 	gens["C16"] = genC16
 }
 
@@ -586,6 +628,7 @@ func genC16(g *G) {
 
 	genC16Batches(g, br, cid, rcp)
 	genC16Boundaries(g, br, cid, rcp)
+	genC16Wide(g, cid, rcp)
 	// --- fee formula
 	for _, rate := range []uint64{0, 1, 4, 5, 6, 9, 10, 99, 100, 1000, 1 << 32, 1<<64 - 1} {
 		for _, io := range [][2]uint64{{0, 0}, {0, 1}, {1, 1}, {1, 2}, {2, 3}, {7, 2}, {1000, 1001}, {1 << 40, 3}} {
@@ -1064,6 +1107,87 @@ func genC16Boundaries(g *G, br, cid string, rcp func(byte) (string, string)) {
 		rate := []string{"0", "1", "5", "7/9", "1000000"}[g.Intn(5)]
 		g.Emit("rawtx", rate, cid, br, joinOr(ps, ";"), us)
 		g.Emit("withdraw", rate, cid, br, joinOr(ms, ";"), us)
+	}
+}
+
+// several resources on one client (multi), and UTXO sets larger than anything a small deployment holds, listed in two orders
+func genC16Wide(g *G, cid string, rcp func(byte) (string, string)) {
+	r1, s1 := rcp(1)
+	r2, s2 := rcp(2)
+	tx := func(i int) string { return fmt.Sprintf("%064x", 0xabc000+i) }
+	brA, brB, brC := c16BridgeArg("a"), c16BridgeArg("b"), c16BridgeArg("c")
+	pa, pb := "10000,"+r1+","+s1, "7000,"+r2+","+s2
+	la := tx(1) + ",0,30000,1000;" + tx(1) + ",1,20000,1000"
+	lb := tx(2) + ",0,25000,1001;" + tx(3) + ",0,9000,999"
+	lc := tx(4) + ",2,50000,1002"
+	step := func(br, ps, l string) string { return br + "^" + ps + "^" + l }
+	for _, seq := range [][]string{
+		{step(brA, pa, la)},
+		{step(brA, pa, la), step(brB, pb, lb)},
+		{step(brB, pb, lb), step(brA, pa, la)},
+		{step(brA, pa, la), step(brB, pb, lb), step(brA, pb, la), step(brC, pa, lc), step(brB, pa, lb)},
+		{step(brA, pa, la), step(brA, pa, lb)},                     // the same address, its UTXO set has changed in between
+		{step(brA, pa, la), step(brA, pa, "-"), step(brA, pa, la)}, // … emptied, then refilled
+		{step(brA, pa, "-"), step(brB, pb, lb)},
+		{step(brA, pa, la), step(brB, pb, "-")},
+	} {
+		g.Emit("multi", "1", cid, strings.Join(seq, "!"))
+	}
+	for i := 0; i < g.Count(150, 4000); i++ {
+		n := 2 + g.Intn(4)
+		steps := []string{}
+		for k := 0; k < n; k++ {
+			br := []string{brA, brB, brC}[g.Intn(3)]
+			r, sc := rcp(byte(1 + g.Intn(3)))
+			ps := utoa(uint64(500+g.Intn(20000))) + "," + r + "," + sc
+			if g.Intn(4) == 0 {
+				ps += ";" + utoa(uint64(g.Intn(3000))) + "," + r2 + "," + s2
+			}
+			us := []string{}
+			for j := 0; j < g.Intn(5); j++ {
+				u := fmt.Sprintf("%s,%d,%d,%d", tx(10+g.Intn(30)), g.Intn(3), 200+g.Intn(40000), 1000+g.Intn(3))
+				if g.Intn(6) == 0 {
+					u = fmt.Sprintf("%s,%d,%d,0,u", tx(10+g.Intn(30)), g.Intn(3), 200+g.Intn(40000))
+				}
+				us = append(us, u)
+			}
+			seen := map[string]bool{}
+			set := []string{}
+			for _, u := range us {
+				f := strings.Split(u, ",")
+				if !seen[f[0]+":"+f[1]] {
+					seen[f[0]+":"+f[1]] = true
+					set = append(set, u)
+				}
+			}
+			steps = append(steps, step(br, ps, joinOr(set, ";")))
+		}
+		g.Emit("multi", []string{"1", "5", "7/9"}[g.Intn(3)], cid, strings.Join(steps, "!"))
+	}
+	// large UTXO sets (hundreds to a thousand outputs; 400 and 500 are round numbers a limit might sit at), two listing orders
+	sizes := []int{399, 400, 401, 450, 501, 640}
+	if g.Thorough() {
+		sizes = append(sizes, 1000, 1001, 1500, 2048)
+	}
+	for _, n := range sizes {
+		for rep := 0; rep < g.Count(1, 3); rep++ {
+			set := []string{}
+			for k := 0; k < n; k++ {
+				u := fmt.Sprintf("%s,%d,%d,%d", tx(1000+k/2), k%2, 1000+g.Intn(5000), 1000+g.Intn(50))
+				if g.Intn(40) == 0 {
+					u = fmt.Sprintf("%s,%d,%d,0,u", tx(1000+k/2), k%2, 1000+g.Intn(5000))
+				}
+				set = append(set, u)
+			}
+			l1, l2 := c16Shuffled(g, set), c16Shuffled(g, set)
+			g.Emit("utxoperm", joinOr(l1, ";"), joinOr(l2, ";"))
+			g.Emit("buildperm", "1", cid, brA, "9000,"+r1+","+s1, joinOr(l1, ";"), joinOr(l2, ";"))
+			if rep == 0 {
+				g.Emit("utxos", joinOr(l1, ";"))
+				// a withdrawal that needs most of the set as inputs
+				g.Emit("buildperm", "1", cid, brA, utoa(uint64(n)*1200)+","+r1+","+s1, joinOr(l2, ";"), joinOr(l1, ";"))
+			}
+		}
 	}
 }
 
